@@ -48,7 +48,7 @@ theorem Jc2m.sends_query (port : Option Nat) (r : Nat) : Sends (2 * (r + 1)) (Jc
     Sends.bind (k2 := 0) (Gs3.sends_getServerPackets s r Jc2m.PAYLOAD true) fun p => Sends.lift (Jc2m.buildResponse p)
   exact h.weaken (by omega)
 
-theorem Mindustry.sends_attempt (port : Nat) : Sends 1 (Mindustry.attempt port) := by
+theorem Mindustry.qsends_attempt (port : Nat) : Sends 1 (Mindustry.attempt port) := by
   unfold Mindustry.attempt
   have h := Sends.bind (Sends.openSock false port) fun s =>
     Sends.bind (k2 := 0) (Sends.send s Mindustry.ping) fun _ =>
@@ -56,8 +56,8 @@ theorem Mindustry.sends_attempt (port : Nat) : Sends 1 (Mindustry.attempt port) 
         Sends.parse Mindustry.parseServerData d
   exact h.weaken (by omega)
 
-theorem Mindustry.sends_query (port r : Nat) : Sends (r + 1) (Mindustry.query port r) := by
-  have := Sends.retry (Mindustry.sends_attempt port) r
+theorem Mindustry.qsends_query (port r : Nat) : Sends (r + 1) (Mindustry.query port r) := by
+  have := Sends.retry (Mindustry.qsends_attempt port) r
   simpa [Mindustry.query] using this
 
 theorem Savage2.sends_query (port : Nat) : Sends 1 (Savage2.query port) := by
